@@ -47,9 +47,9 @@ package htlc
 //@   invariant #2 sums:  forall d:Str :: amt(incomingSupplies, d) == INSUM(data.Htlcs, rangeindex + 1, d) && amt(outgoingSupplies, d) == OUTSUM(data.Htlcs, rangeindex + 1, d)
 //@   invariant @IterateAssetSupplies #1 frame: forall j:Int :: 0 <= j && j < len(data.Htlcs) ==> has(htlcs, unhex(data.Htlcs[j].Id)) && get(htlcs, unhex(data.Htlcs[j].Id)) == data.Htlcs[j]
 //@                          && has(queue, data.Htlcs[j].ExpirationHeight, unhex(data.Htlcs[j].Id))
-//@   invariant #3 idx:   rangeindex >= 0 - 1 && rangeindex < len(l_supplies)
-//@   invariant #3 recon: forall j:Int :: 0 <= j && j <= rangeindex ==> l_supplies[j].IncomingSupply.Amount == INSUM(data.Htlcs, len(data.Htlcs), l_supplies[j].CurrentSupply.Denom)
-//@                          && l_supplies[j].OutgoingSupply.Amount == OUTSUM(data.Htlcs, len(data.Htlcs), l_supplies[j].CurrentSupply.Denom)
+//@   invariant #3 idx:   rangeindex >= 0 - 1 && rangeindex < len(rangeover)
+//@   invariant #3 recon: forall j:Int :: 0 <= j && j <= rangeindex ==> rangeover[j].IncomingSupply.Amount == INSUM(data.Htlcs, len(data.Htlcs), rangeover[j].CurrentSupply.Denom)
+//@                          && rangeover[j].OutgoingSupply.Amount == OUTSUM(data.Htlcs, len(data.Htlcs), rangeover[j].CurrentSupply.Denom)
 //@   invariant #3 frame: forall j:Int :: 0 <= j && j < len(data.Htlcs) ==> has(htlcs, unhex(data.Htlcs[j].Id)) && get(htlcs, unhex(data.Htlcs[j].Id)) == data.Htlcs[j]
 //@                          && has(queue, data.Htlcs[j].ExpirationHeight, unhex(data.Htlcs[j].Id))
 //@   ensures imported: forall j:Int :: 0 <= j && j < len(data.Htlcs) ==> has(htlcs, unhex(data.Htlcs[j].Id)) && get(htlcs, unhex(data.Htlcs[j].Id)) == data.Htlcs[j]
